@@ -33,7 +33,8 @@ BASE_PROFILE = dict(
     item_fault_modes=["error", "unset", "baseerror", "falsyerror"],
     p_flush_fault=0.0,
     p_same_object=0.08,
-    p_ctx_sync=0.0,  # logging contexts whose resume()/pause() make a synchronous asynq call  # a yielded container is yielded again / reached by two routes in one yield
+    p_ctx_sync=0.0,
+    p_future_result=0.05,  # a task whose result is itself a future object  # logging contexts whose resume()/pause() make a synchronous asynq call  # a yielded container is yielded again / reached by two routes in one yield
     p_spawn=0.0,
     max_instances=300,
     sv_names=["sv0", "sv1", "at0"],
@@ -290,6 +291,8 @@ class Gen(object):
             )
             if rnd.random() < p["p_result"]:
                 node["ret"] = "result"
+            elif p.get("p_future_result") and nid != 0 and rnd.random() < p["p_future_result"]:
+                node["ret"] = "future"
         # styles
         for node in self.nodes:
             if lang.node_has_yield(node):
